@@ -268,10 +268,13 @@ end
 /-! ## The shared skeleton -/
 
 /-- what an evaluator's fragment code selects: in the last position, and in an inner position (in the
-order in which the rest of the path is applied) -/
+order in which the rest of the path is applied); `sets`: does the first pass of a descent on this
+element set `descentFlag` on the marker (Get and FirstFound have a `default:` case that always does;
+Has, GetNodes and FirstNode only have cases for the containers they know) -/
 structure Sel where
   last : Frag → JV → List (Path × JV)
   inner : Frag → JV → List (Path × JV)
+  sets : JV → Bool
 
 def isDescent : Frag → Bool
   | .descent => true
@@ -279,6 +282,12 @@ def isDescent : Frag → Bool
 
 /-- prefix the locations of a result list -/
 def pre (p : Path) (l : List (Path × JV)) : List (Path × JV) := l.map fun q => (p ++ q.1, q.2)
+
+/-- the `descentSiblings` deviation: the elements handed to a descent share one marker; each is expanded
+(`full`) until one of them sets the flag, the remaining ones only get the second pass (`shallow`) -/
+def sibEval (sets : JV → Bool) (full shallow : Path × JV → List (Path × JV)) : List (Path × JV) → List (Path × JV)
+  | [] => []
+  | m :: ms => if sets m.2 then full m ++ ms.flatMap shallow else full m ++ sibEval sets full shallow ms
 
 /-- the traversal all evaluators share ("the easy way" of the comment in get.go).
 `sib` = the `descentSiblings` deviation of the stack machines: where a descent follows another
@@ -289,9 +298,7 @@ def evalSel (S : Sel) (sib : Bool) : List Frag → JV → List (Path × JV)
   | [f], v => S.last f v
   | f :: g :: r, v =>
     if sib && isDescent g && !isDescent f then
-      match S.inner f v with
-      | [] => []
-      | m :: ms => pre m.1 (evalSel S sib (g :: r) m.2) ++ ms.flatMap fun m => pre m.1 (evalSel S sib r m.2)
+      sibEval S.sets (fun m => pre m.1 (evalSel S sib (g :: r) m.2)) (fun m => pre m.1 (evalSel S sib r m.2)) (S.inner f v)
     else (S.inner f v).flatMap fun m => pre m.1 (evalSel S sib (g :: r) m.2)
 
 /-! ## Get (jp/get.go) -/
@@ -405,7 +412,7 @@ def push (cfg : Cfg) (rep : Rep) : Frag → JV → List (Path × JV)
   | .filter p, v => (filterKids cfg rep p v).reverse             -- evalWithRoot: `for vi := dlen - 1; 0 <= vi; vi--`, every match
 
 def sel (cfg : Cfg) (rep : Rep) : Sel :=
-  { last := last cfg rep, inner := fun f v => (push cfg rep f v).reverse }
+  { last := last cfg rep, inner := fun f v => (push cfg rep f v).reverse, sets := fun _ => true }
 
 /-- a stretch of the evaluation stack: data elements (the head is the top) under one fragment-index
 marker with its flags. The Go stack is the concatenation of such stretches; the round that only pops
@@ -547,7 +554,7 @@ def inner (cfg : Cfg) (rep : Rep) : Frag → JV → List (Path × JV)
   | .slice s e t, v => sliceInner cfg rep s e t v
   | f, v => (Get.push cfg rep f v).reverse
 
-def sel (cfg : Cfg) (rep : Rep) : Sel := { last := last cfg rep, inner := inner cfg rep }
+def sel (cfg : Cfg) (rep : Rep) : Sel := { last := last cfg rep, inner := inner cfg rep, sets := fun _ => true }
 
 end First
 
@@ -560,10 +567,14 @@ inner branches lacks `reflect.Map`) -/
 def Has.inner (cfg : Cfg) (rep : Rep) (f : Frag) (v : JV) : List (Path × JV) :=
   if cfg.hasTypedDescent && isDescent f && First.typedNode rep v then []
   else if cfg.hasTypedMap && rep.ok = .rmap then
-    (First.inner cfg rep f v).filter fun m => match m.2 with | .obj _ => false | _ => true
+    match f with
+    | .filter _ => First.inner cfg rep f v       -- evalWithRoot pushes every match itself
+    | _ => (First.inner cfg rep f v).filter fun m => match m.2 with | .obj _ => false | _ => true
   else First.inner cfg rep f v
 
-def Has.sel (cfg : Cfg) (rep : Rep) : Sel := { last := First.last cfg rep, inner := Has.inner cfg rep }
+def Has.sel (cfg : Cfg) (rep : Rep) : Sel :=
+  { last := First.last cfg rep, inner := Has.inner cfg rep,
+    sets := fun v => isContainer v && !(cfg.hasTypedDescent && First.typedNode rep v) }
 
 def hasM (cfg : Cfg) (rep : Rep) (x : List Frag) (d : JV) : Bool :=
   !(evalSel (Has.sel cfg rep) cfg.descentSiblings x d).isEmpty
@@ -618,7 +629,7 @@ def inner (cfg : Cfg) (rep : Rep) (f : Frag) (v : JV) : List (Path × JV) :=
   | .descent => (last cfg rep f v).filter fun m => isContainer m.2 || m.1.isEmpty
   | _ => contOnly (last cfg rep f v)
 
-def sel (cfg : Cfg) (rep : Rep) : Sel := { last := last cfg rep, inner := inner cfg rep }
+def sel (cfg : Cfg) (rep : Rep) : Sel := { last := last cfg rep, inner := inner cfg rep, sets := fun _ => true }
 
 /-- an inner slice fragment indexes the array without a bounds test: `td[i]` faults when the index
 `startEndStep` produced is not in the array -/
@@ -675,7 +686,7 @@ def inner (cfg : Cfg) (rep : Rep) : Frag → JV → List (Path × JV)
   | .descent, v => if cfg.walkDescentNoSelf then belowPre v else ([], v) :: belowPre v
   | f, v => last cfg rep f v
 
-def sel (cfg : Cfg) (rep : Rep) : Sel := { last := last cfg rep, inner := inner cfg rep }
+def sel (cfg : Cfg) (rep : Rep) : Sel := { last := last cfg rep, inner := inner cfg rep, sets := fun _ => true }
 
 end Walk
 
@@ -714,7 +725,7 @@ def inner (cfg : Cfg) : Frag → JV → List (Path × JV)
   | .filter p, v => filterKids cfg p v
   | f, v => (Get.push cfg Rep.gen f v).reverse
 
-def sel (cfg : Cfg) : Sel := { last := last cfg, inner := inner cfg }
+def sel (cfg : Cfg) : Sel := { last := last cfg, inner := inner cfg, sets := isContainer }
 
 end Nodes
 
@@ -737,7 +748,7 @@ def last (cfg : Cfg) : Frag → JV → List (Path × JV)
   | .descent, v => (lastDesc v).take 1
   | f, v => Get.last cfg Rep.gen f v
 
-def sel (cfg : Cfg) : Sel := { last := last cfg, inner := Nodes.inner cfg }
+def sel (cfg : Cfg) : Sel := { last := last cfg, inner := Nodes.inner cfg, sets := isContainer }
 
 end FirstNode
 
